@@ -92,6 +92,13 @@ fn build_arg(items: &[Sx]) -> Arg {
             "required" => a.required(true),
             // conflicts_with_all: only the zsh generator reads it (exclusion lists)
             "cx" => a.conflicts_with_all(l.iter().map(|x| s(x)).collect::<Vec<String>>()),
+            // round 4: value_names (zsh option specs; Arg::_build's default num_args; bash's Display of a positional),
+            // value_terminator and last (zsh positional specs), groups(..) = the ArgGroups _build_self makes (targets of
+            // conflicts_with in zsh exclusion lists)
+            "vn" => a.value_names(l.iter().map(|x| s(x)).collect::<Vec<String>>()),
+            "term" => a.value_terminator(s(op(l))),
+            "last" => a.last(true),
+            "grp" => a.groups(l.iter().map(|x| s(x)).collect::<Vec<String>>()),
             // descriptive text (read by the generator-model streams that compare whole scripts; not dumped)
             "help" => a.help(s(op(l))),
             h => panic!("spec: unknown arg item {h}"),
